@@ -157,3 +157,37 @@ Example C11_unique_destination_guard_satisfiable :
                   [mkLitem (s2l "a") [s2l "share"; s2l "l"] [s2l "share"] [] None] in
   others_avoid o pl i (cleanp (fitem_outname (effective_destdir o pl) (destdir_join (effective_destdir o pl) (p_prefix pl)) i)).
 Proof. exact others_avoid_example. Qed.
+
+(* the three uninstall statements in one, with completion as a conclusion instead of a hypothesis *)
+Theorem C11_uninstall_total_partial : forall o pl f f' lg,
+  wf_plan_strict o pl = true -> o_dry o = false -> wf_fs f ->
+  do_install o pl f = (f', lg, Ok tt) ->
+  exists f'', do_uninstall f' lg = (f'', Ok tt) /\
+    (forall q, In q (logged lg) -> lookup f'' q = None) /\
+    (forall q, ~ In q (logged lg) -> lookup f'' q = lookup f' q) /\
+    (forall q, lookup f'' q = None \/ lookup f'' q = lookup f q \/ mode_only (lookup f q) (lookup f'' q)).
+Proof. exact uninstall_total_partial. Qed.
+Print Assumptions C11_uninstall_total_partial.
+
+(* with the pending fix C11-symlink-write-through the model covers a symbolic link that is in the way of a
+   file rule (it used to be outside the model): all theorems above quantify over such trees too; this
+   instance shows the run succeeds, the link is replaced and its target is not touched *)
+Example C11_link_in_the_way_is_replaced :
+  let o := mkOpts false false None [] [[]; s2l "d"] 18 in
+  let i := mkFitem KData (SReg 420 7 (s2l "dg")) (s2l "a") [s2l "share"; s2l "a"] None [] None false in
+  let pl := mkPlan [[]; s2l "usr"] (Some 18) [[]; s2l "b"] [] [] [] [] [] [i] [] in
+  let f := [([s2l "d"], NDir 493); ([s2l "d"; s2l "usr"], NDir 493); ([s2l "d"; s2l "usr"; s2l "share"], NDir 493);
+            ([s2l "d"; s2l "usr"; s2l "share"; s2l "a"], NLink (s2l "/etc/passwd"))] in
+  exists f' lg, do_install o pl f = (f', lg, Ok tt) /\
+    lookup f' [s2l "d"; s2l "usr"; s2l "share"; s2l "a"] = Some (NFile 420 7 (s2l "dg")) /\
+    lookup f' [s2l "etc"; s2l "passwd"] = None.
+Proof. exact link_in_the_way_replaced. Qed.
+
+(* containment lifted to histories: after ANY sequence of `meson install` runs into the same DESTDIR
+   (reinstall, --only-changed, --tags, --skip-subprojects, --dry-run, succeeding or failing), a location
+   that is neither under DESTDIR nor an ancestor of DESTDIR is exactly as it was *)
+Theorem C11_containment_all_histories_partial : forall pl os D f,
+  (forall o, In o os -> wf_plan o pl = true /\ cleanp (effective_destdir o pl) = D) ->
+  forall q, ~ is_prefix D q -> ~ is_prefix q D -> lookup (run_installs pl os f) q = lookup f q.
+Proof. exact installs_contained_partial. Qed.
+Print Assumptions C11_containment_all_histories_partial.
